@@ -170,11 +170,12 @@ func (ex *zzC13Exec) sig() string {
 			parts = append(parts, s)
 		}
 	}
-	// States whose restart handling is itself the recorded finding (C13-F2,
-	// C13-F3): whatever else happened in this execution, the node was
-	// restarted in that state.
+	// A state whose restart handling is itself a recorded, open finding
+	// (C13-F3): whatever else happened in this execution, the node was
+	// restarted in that state. (A restart in StateContractClosed used to be
+	// listed here for C13-F2; that defect is repaired - 7215c77 - and such
+	// executions are judged like any other again.)
 	for _, root := range []string{
-		StateContractClosed.String(),
 		StateDefault.String() + "(commit-set-logged,channel-open)",
 	} {
 		if seen[root] {
